@@ -38,6 +38,9 @@ def ACOSH(number):
     number = utils.parse_number(number)
     if isinstance(number, error.XLError):
         return number
+    if number < 1:
+        # outside the domain; for a large negative integer the sum below can round to a positive number
+        return error.NUM
     return math.log(number + math.sqrt(number * number - 1))
 
 
